@@ -24,7 +24,7 @@ A1 == <<97>>
 B1 == <<98>>
 
 Names == {<<Foo, Bar>>, <<Foobar>>, <<My, Local>>, <<Mysrv, Local>>, <<A1, Mysrv, Local>>, <<B1, Mysrv, Local>>,
-          <<Local>>, <<Bar>>, <<A1, B1, Mysrv, Local>>}
+          <<Local>>, <<Bar>>, <<A1, B1, Mysrv, Local>>, <<B1, A1, Mysrv, Local>>, <<A1, Foobar>>}
 
 Rec(n, t, c, rd) == [name |-> n, type |-> t, class |-> c, cf |-> FALSE, ttl |-> <<0, 0, 0, 120>>, rd |-> rd]
 Catalogue ==
@@ -40,9 +40,16 @@ vars == <<hist, n, done>>
 Init == hist = <<>> /\ n = 0 /\ done = FALSE
 
 TtlBytes(t) == <<0, 0, (t \div 256) % 256, t % 256>>
-RandRec(x) == RandomElement(Catalogue)
-RandQuestion(x) == [name |-> RandomElement(Names \cup {<<Foo>>, <<Mysrv>>, <<>>}),
-                 qtype |-> RandomElement({1, 28, 33, 16, 12, 8, 15, 253, 255, 252, 254}),
+\* half of the time draw from the SRV neighbourhood (SRV records, address records at, below and above
+\* their targets) so that additional-record rules are exercised often
+SrvWorld == {r \in Catalogue : r.type = 33 \/ (r.type \in {1, 28} /\ \E tn \in {<<A1, Mysrv, Local>>, <<Foobar>>} :
+                                                    r.name = tn \/ IsSubdomainOf(r.name, tn) \/ IsSubdomainOf(tn, r.name))}
+RandRec(x) == IF RandomElement({0, 1}) = 0 THEN RandomElement(SrvWorld) ELSE RandomElement(Catalogue)
+\* questions mostly ask for names that were registered earlier in the history
+Added(x) == {x[i].rec.name : i \in {j \in 1 .. Len(x) : x[j].op \in {"add_auth", "add_cached"}}}
+RandQuestion(x) == [name |-> IF Added(x) # {} /\ RandomElement(1 .. 4) <= 3 THEN RandomElement(Added(x))
+                             ELSE RandomElement(Names \cup {<<Foo>>, <<Mysrv>>, <<>>}),
+                 qtype |-> RandomElement({1, 28, 33, 33, 16, 12, 8, 15, 253, 255, 255, 255, 252, 254}),
                  qclass |-> RandomElement({1, 3, 255}), unicast |-> RandomElement(BOOLEAN)]
 
 Op(x) ==
